@@ -4,6 +4,7 @@
 cd /verif
 IDS="$@"; [ -z "$IDS" ] && IDS=$(ls seeded)
 for id in $IDS; do
+  if grep -q '"neutralised_by_fix"' seeded/$id/meta.json; then echo "NEUTRAL $id (equivalent on the repaired tree, see meta.json)"; continue; fi
   props=$(python3 -c "import json;print(' '.join(json.load(open('seeded/$id/meta.json'))['caught_by'][:1]))")
   out=$(tools/try_mutant.sh seeded/$id/patch.diff $props 2>&1 | grep '^==')
   if echo "$out" | grep -q "exit=1"; then echo "CAUGHT $id by $props"; else echo "MISSED $id ($out)"; fi
